@@ -72,6 +72,12 @@ def topology():
                     top.add_bond(prev, a)
                 prev = a
         ch = top.add_chain()
+        for k_, rn in enumerate(("WAT", "SOL", "TIP3", "H2O")):       # the other conventional names of a water residue
+            r = top.add_residue(rn, ch, resSeq=850 + k_)
+            o_ = top.add_atom("O", _el.oxygen, r)
+            for hn in ("H1", "H2"):
+                top.add_bond(o_, top.add_atom(hn, _el.hydrogen, r))
+        ch = top.add_chain()
         for rn, rs in (("G", 901), ("DA5", 902)):
             r = top.add_residue(rn, ch, resSeq=rs)
             prev = None
